@@ -408,6 +408,7 @@ def replay_one(rec, d, idx, seed, aspects, reference):
     W, G, L = (norm_outcome(res[k], cfg) for k in ("wild", "ld", "lld"))
     info = {"idx": idx, "line": line, "variant": variant, "threads": threads, "env": env, "cfg": cfg,
             "expect": R, "model": M, "wild": W, "ld": G, "lld": L,
+            "flags": {k: rec.get(k) for k in ("causes", "loadDiv", "shadow", "commonLazy")},
             "raw": {k: {kk: vv for kk, vv in v.items() if kk in ("rc", "msg", "needed", "error")} for k, v in res.items()}}
     if res["wild"]["error"] in ("crash", "hang", "other") or res["wild"]["error"].startswith("bad-output"):
         info["status"] = "wild-abnormal"
